@@ -503,3 +503,90 @@ End WithParser.
 
 Arguments lr_value {A} _.
 Arguments lr_reported {A} _.
+
+(* ------------------------------------------------------------------------------------------ *)
+(* The engine as the code runs it: MerchantEngine(match_mode) carries its mode, parse() walks the lines one
+   by one with `current_rule` / `rule_start_line`, and _add_rule APPENDS the finished rule to self.rules
+   whatever the mode (the mode only governs match()).  This line-by-line machine is proved equal to the
+   grouped reading above (Proofs.v), so every theorem about parse_merchants holds of it, in both modes. *)
+Inductive match_mode := FirstMatch | MostSpecific.
+
+Record engine := { e_mode : match_mode; e_rules : list rule; e_vars : dict string; e_tr : list (string * string) }.
+
+Definition fresh_engine (mode : match_mode) : engine :=         (* parse(): self.rules = [] … *)
+  {| e_mode := mode; e_rules := []; e_vars := []; e_tr := [] |}.
+
+Definition add_rule (e : engine) (r : rule) : engine :=           (* self.rules.append(rule) *)
+  {| e_mode := e_mode e; e_rules := (e_rules e ++ [r])%list; e_vars := e_vars e; e_tr := e_tr e |}.
+
+Definition set_top (e : engine) (vt : dict string * list (string * string)) : engine :=
+  {| e_mode := e_mode e; e_rules := e_rules e; e_vars := fst vt; e_tr := snd vt |}.
+
+Record pstate := { p_eng : engine; p_cur : option (nat * string * prule) }.   (* current_rule, rule_start_line *)
+
+Definition mfile_of (e : engine) : mfile := {| m_rules := e_rules e; m_vars := e_vars e; m_transforms := e_tr e |}.
+
+Section EngineLoop.
+  Variable pyparse : string -> bool.
+
+  (* if current_rule: self._add_rule(current_rule, rule_start_line) *)
+  Definition close_rule (st : pstate) : res engine :=
+    match p_cur st with
+    | None => Ok (p_eng st)
+    | Some (n0, name, pr) => bind (finish_rule pyparse n0 name pr) (fun r => Ok (add_rule (p_eng st) r))
+    end.
+
+  Definition seq_step (st : pstate) (t : nat * cline) : res pstate :=
+    match snd t with
+    | Skip => Ok st
+    | Header name =>
+        bind (close_rule st) (fun e =>
+          if is_empty name then Err (fst t) EEmptyName
+          else Ok {| p_eng := e; p_cur := Some (fst t, name, prule0) |})
+    | Content s =>
+        match p_cur st with
+        | None =>
+            bind (pre_step pyparse (e_vars (p_eng st), e_tr (p_eng st)) (fst t, s)) (fun vt =>
+              Ok {| p_eng := set_top (p_eng st) vt; p_cur := None |})
+        | Some (n0, name, pr) =>
+            bind (apply_prop pr (fst t, s)) (fun pr' => Ok {| p_eng := p_eng st; p_cur := Some (n0, name, pr') |})
+        end
+    end.
+
+  Definition run_engine (st : pstate) (toks : list (nat * cline)) : res engine :=
+    bind (foldM seq_step toks st) close_rule.
+
+  Definition parse_engine (mode : match_mode) (lines : list string) : res engine :=
+    run_engine {| p_eng := fresh_engine mode; p_cur := None |}
+               (map (fun p => (fst p, classify_m (snd p))) (number 1 lines)).
+End EngineLoop.
+
+(* ------------------------------------------------------------------------------------------ *)
+(* The report memory of merchant_utils (_reported_load_errors): a process-wide set of (path, message) pairs.
+   A loader call on a path either loads (no message) or fails with an error message; the message is shown
+   iff the pair is not in the set yet; clear_engine_cache() empties the set.  Paths and messages are
+   abstract (any type with a decidable equality): the theorems hold for every history of calls. *)
+Section ReportMemory.
+  Variables (P E : Type) (peq : P -> P -> bool) (eeq : E -> E -> bool).
+
+  Inductive call := Load (path : P) (outcome : option E) | ClearCache.
+
+  Definition known (p : P) (e : E) (shown : list (P * E)) : bool :=
+    existsb (fun q => (peq p (fst q) && eeq e (snd q))%bool) shown.
+
+  (* one call: new memory, and whether a message reached the user *)
+  Definition report_step (shown : list (P * E)) (c : call) : list (P * E) * bool :=
+    match c with
+    | ClearCache => ([], false)
+    | Load p None => (shown, false)
+    | Load p (Some e) => if known p e shown then (shown, false) else ((p, e) :: shown, true)
+    end.
+
+  Fixpoint run_calls (shown : list (P * E)) (cs : list call) : list bool :=
+    match cs with
+    | [] => []
+    | c :: r => let (sh, b) := report_step shown c in b :: run_calls sh r
+    end.
+End ReportMemory.
+Arguments Load {P E} path outcome.
+Arguments ClearCache {P E}.
